@@ -73,6 +73,7 @@ struct Tracked {
 static int g_failures = 0;
 static std::string g_msg;
 static bool g_known_multi_move = false;
+static bool g_adjusted = false;
 static void fail(const std::string& m) { if (g_msg.empty()) g_msg = m; }
 
 // what the definition body saw
@@ -109,7 +110,14 @@ def shape_classes(shape, most_is_def):
     if most_is_def:
         most = "using Most = Der;\n"
     else:
-        most = "struct Most : Der { int most = 16; };\n"
+        most = "struct Most : Der { long most = 16; };\n"
+    # a second most-derived class with another layout: the same definition
+    # must adjust correctly for objects of both
+    most += "struct Pad3 { virtual ~Pad3() {} long pad3[5] = {6, 7, 8, 9, 10}; };\n"
+    if shape == "same":
+        most += "struct Most2 : Pad3, Base { long most2[3] = {17, 18, 19}; };\n"
+    else:
+        most += "struct Most2 : Pad3, Der { long most2[3] = {17, 18, 19}; };\n"
     reg = ["Base"]
     if shape == "two_levels":
         reg.append("Mid")
@@ -119,6 +127,7 @@ def shape_classes(shape, most_is_def):
         reg.append("Der")
     if not most_is_def:
         reg.append("Most")
+    reg.append("Most2")
     return pad + base + body + most, reg
 
 
@@ -240,8 +249,9 @@ def emit_case(idx, case):
     out.append("    " + body_ret)
     out.append("}")
     # the caller
-    out.append("static void run() {")
-    out.append("    g_msg.clear(); g_known_multi_move = false; which_def = 0;")
+    out.append("template<class Most> static void run_with(const char* "
+               "which) {")
+    out.append("    which_def = 0;")
     out.append("    auto owner = std::make_shared<Most>();")
     out.append("    g_owner = owner;")
     out.append("    Most& obj = *owner;")
@@ -347,10 +357,21 @@ def emit_case(idx, case):
         # recorded finding when it exceeds one move per rvalue argument
         out.append("    if (seen_moves > %d) g_known_multi_move = true;" % (
             n_l + n_r))
+    out.append("    g_adjusted = g_adjusted || adjusted;")
+    out.append("    if (!g_msg.empty() && g_msg.find(\" [object: \") == "
+               "std::string::npos) g_msg += std::string(\" [object: \") + "
+               "which + \"]\";")
+    out.append("    g_owner.reset();")
+    out.append("}")
+    out.append("static void run() {")
+    out.append("    g_msg.clear(); g_known_multi_move = false; g_adjusted = "
+               "false;")
+    out.append("    run_with<Most>(\"Most\");")
+    out.append("    run_with<Most2>(\"Most2, another layout\");")
+    out.append("    run_with<Most>(\"Most again\");")
     out.append("    std::printf(\"CASE %d %%s nontrivial=%%d %%s\\n\", "
                "g_msg.empty() ? (g_known_multi_move ? \"KNOWN\" : \"PASS\") "
-               ": \"FAIL\", int(adjusted), g_msg.c_str());" % idx)
-    out.append("    g_owner.reset();")
+               ": \"FAIL\", int(g_adjusted), g_msg.c_str());" % idx)
     out.append("}")
     out.append("} // namespace")
     return "\n".join(out)
